@@ -80,8 +80,30 @@ theorem runPre_noEval (pre : List Pre) : ∀ (f : Frame) (rest : Stack), Spec.ha
       exact ⟨o, by simp [runPre, setTopOffset, ho]⟩
     | directEval off k => simp [Spec.hasEval] at h
 
+/- Evaluating an argument list – calls nested in arguments to any depth – touches nothing but the offset of
+   the calling frame (no direct eval among the arguments). -/
+mutual
+theorem evalArg_noEval : ∀ (a : Arg) (f : Frame) (rest : Stack), Spec.argHasEval a = false →
+    ∃ o, evalArg a (f :: rest) = { f with offset := o } :: rest
+  | .lit, f, rest, _ => ⟨f.offset, rfl⟩
+  | .call fm off as, f, rest, h => by
+    obtain ⟨o, ho⟩ := evalArgs_noEval as f rest (by simpa [Spec.argHasEval] using h)
+    exact ⟨atvOf fm off, by simp [evalArg, ho, setTopOffset]⟩
+  | .evalDirect _ _, _, _, h => by simp [Spec.argHasEval] at h
+theorem evalArgs_noEval : ∀ (as : Args) (f : Frame) (rest : Stack), Spec.argsHasEval as = false →
+    ∃ o, evalArgs as (f :: rest) = { f with offset := o } :: rest
+  | .nil, f, rest, _ => ⟨f.offset, rfl⟩
+  | .cons a r, f, rest, h => by
+    have h' : Spec.argHasEval a = false ∧ Spec.argsHasEval r = false := by
+      simpa [Spec.argsHasEval] using h
+    obtain ⟨o, ho⟩ := evalArg_noEval a f rest h'.1
+    obtain ⟨o2, ho2⟩ := evalArgs_noEval r { f with offset := o } rest h'.2
+    exact ⟨o2, by simp [evalArgs, ho, ho2]⟩
+end
+
 def LevelOK (lv : Level) : Prop :=
-  lv.form ≠ .other ∧ lv.via ≠ .implicit ∧ lv.via ≠ .evalDirect ∧ Spec.hasEval lv.pre = false
+  lv.form ≠ .other ∧ lv.via ≠ .implicit ∧ lv.via ≠ .evalDirect ∧ Spec.hasEval lv.pre = false ∧
+    Spec.argsHasEval lv.args = false
 
 theorem atvOf_recorded (fm : Form) (off : Int) (h : fm ≠ .other) : atvOf fm off = off := by
   cases fm <;> simp_all [atvOf]
@@ -101,11 +123,13 @@ theorem stack_shape (ls : List Level) : ∀ (top : Frame) (fl : Nat) (rest : Sta
     intro top fl rest cur hf hall
     have hlv : LevelOK lv := hall lv (by simp)
     have hls : ∀ l ∈ ls, LevelOK l := fun l hl => hall l (by simp [hl])
-    obtain ⟨hform, hvia, hvia2, hev⟩ := hlv
-    obtain ⟨o, ho⟩ := runPre_noEval lv.pre top rest hev
+    obtain ⟨hform, hvia, hvia2, hev, hae⟩ := hlv
+    obtain ⟨o1, ho1⟩ := runPre_noEval lv.pre top rest hev
+    obtain ⟨o, ho⟩ := evalArgs_noEval lv.args { top with offset := o1 } rest hae
+    rw [show ({ ({ top with offset := o1 } : Frame) with offset := o } : Frame) = { top with offset := o } from rfl] at ho
     have htop : ({ top with offset := lv.off } : Frame) = frameOfAct { name := top.callee, native := top.native, file := fl, cur := lv.off } := by
       cases top; simp_all [FileOK, frameOfAct]
-    simp only [enterLevels, enterLevel, ho, setTopOffset_cons, atvOf_recorded _ _ hform]
+    simp only [enterLevels, enterLevel, ho1, ho, setTopOffset_cons, atvOf_recorded _ _ hform]
     cases hv : lv.via with
     | implicit => exact absurd hv hvia
     | direct =>
@@ -199,6 +223,42 @@ theorem innerAct_cur (ls : List Level) : ∀ (name : String) (native : Bool) (fl
   | nil => intro _ _ _ _; rfl
   | cons lv ls ih => intro name native fl cur; cases hv : lv.via <;> simp [innerAct, hv, ih]
 
+/-- The call site survives the argument list: when a call through a recorded callee is made, the calling frame
+    holds the position of *that* call – whatever calls (nested to any depth, `new` included) its arguments
+    contained and whatever ran before it in the frame.  (The assignment `rt.scope.frame.offset = int(atv)` comes
+    after argument evaluation, immediately before `call`.) -/
+theorem call_site_after_args (lv : Level) (f : Frame) (rest : Stack)
+    (hform : lv.form ≠ .other) (hvia : lv.via = .direct ∨ lv.via = .construct ∨ lv.via = .bound)
+    (hpre : Spec.hasEval lv.pre = false) (hargs : Spec.argsHasEval lv.args = false) :
+    enterLevel lv (f :: rest) = nodeFrame lv.name lv.file :: { f with offset := lv.off } :: rest := by
+  obtain ⟨o1, ho1⟩ := runPre_noEval lv.pre f rest hpre
+  obtain ⟨o, ho⟩ := evalArgs_noEval lv.args { f with offset := o1 } rest hargs
+  rcases hvia with h | h | h <;>
+    simp [enterLevel, ho1, ho, h, setTopOffset_cons, atvOf_recorded _ _ hform]
+
+/-- Every ACTIVE frame reports the call still in progress: below the innermost activation the scope chain is,
+    frame by frame, (function name, site of the call it is currently making), for every nesting of activations
+    and every nesting of completed calls in their argument lists. -/
+theorem active_frames_report_call_in_progress (ls : List Level) (hok : ∀ lv ∈ ls, LevelOK lv) :
+    (enterLevels ls (globalStack 0)).tail = (outerActs "" false 0 ls).reverse.map frameOfAct := by
+  have := stack_shape ls { callee := "", file := some 0 } 0 [] 0 (by simp [FileOK]) hok
+  simp only [acts_split, List.reverse_append, List.reverse_cons, List.reverse_nil, List.nil_append,
+    List.cons_append, List.map_cons, List.append_nil] at this
+  cases hS : enterLevels ls (globalStack 0) with
+  | nil => rw [show globalStack 0 = [{ callee := "", file := some 0 }] from rfl] at hS; rw [hS] at this; simp [setTopOffset] at this
+  | cons g r =>
+    rw [show globalStack 0 = [{ callee := "", file := some 0 }] from rfl] at hS
+    rw [hS, setTopOffset_cons] at this
+    exact (List.cons.inj this).2
+
+/-- the order matters: recording the site *before* the arguments are evaluated (as a hoisted assignment would)
+    leaves the position of the argument's call `id(2)` (20) in the frame instead of the outer call's (5) -/
+example :
+    let f : Frame := { callee := "outer", file := some 0 }
+    let args : Args := .cons .lit (.cons (.call .ident 20 .nil) .nil)
+    setTopOffset 5 (evalArgs args [f]) = [{ f with offset := 5 }] ∧
+    evalArgs args (setTopOffset 5 [f]) = [{ f with offset := 20 }] := by decide
+
 theorem cons_walkOuter (x : Frame) (T : Stack) (limit : Int) (h : ∀ f ∈ T, nonneg f = true) :
     x :: walkOuter T limit = Spec.applyLimit limit (x :: T) := by
   by_cases hl : limit ≤ 0
@@ -260,10 +320,11 @@ theorem trace_complete_partial (files : List FileEnt) (limit : Int) (sc : Scenar
     have a1 := h1 lv hm
     have a2 := h2 lv hm
     have a3 := h3.1 lv hm
-    refine ⟨?_, ?_, ?_, ?_⟩
+    refine ⟨?_, ?_, ?_, ?_, ?_⟩
     · intro hf; simp_all
     · intro hv; simp_all
     · intro hv; simp_all
+    · simp_all
     · simp_all
   have hpre : Spec.hasEval sc.pre = false := by
     simp only [Spec.devEvalFile, Bool.or_eq_false_iff] at h3; exact h3.2
@@ -401,7 +462,7 @@ theorem trace_limit_zero_unlimited (f : Frame) (outer : Stack) (limit : Int) (h 
 /-- non-vacuity of `trace_complete_partial`: f calls g through a method, g reads an undefined variable -/
 example :
     let src : Src := [102, 117, 110, 99, 116, 105, 111, 110, 32, 103, 40, 41, 123, 32, 122, 122, 122, 32, 125, 10, 118, 97, 114, 32, 111, 32, 61, 32, 123, 109, 58, 32, 102, 117, 110, 99, 116, 105, 111, 110, 32, 102, 40, 41, 123, 32, 103, 40, 41, 32, 125, 125, 10, 111, 46, 109, 40, 41]  -- 'function g(){ zzz }\nvar o = {m: function f(){ g() }}\no.m()'
-    let sc : Scenario := { levels := [⟨.direct, .dot, "f", 54, [], 0⟩, ⟨.direct, .ident, "g", 47, [], 0⟩], pre := [], raise := .withAt 15 }
+    let sc : Scenario := { levels := [⟨.direct, .dot, "f", 54, [], 0, .nil⟩, ⟨.direct, .ident, "g", 47, [], 0, .nil⟩], pre := [], raise := .withAt 15 }
     Spec.traceDevs [⟨"", src⟩] sc = [] ∧
     trace [⟨"", src⟩] 10 sc =
       [⟨"g", .at "<anonymous>" 1 15⟩, ⟨"f", .at "<anonymous>" 2 27⟩, ⟨"", .at "<anonymous>" 3 1⟩] := by
@@ -410,7 +471,7 @@ example :
 /-- Dev `trace_unrecorded_callee`: the caller of an IIFE disappears from the trace. -/
 example :
     let src : Src := [102, 117, 110, 99, 116, 105, 111, 110, 32, 102, 40, 41, 123, 32, 40, 102, 117, 110, 99, 116, 105, 111, 110, 40, 41, 123, 32, 122, 122, 122, 32, 125, 41, 40, 41, 32, 125, 10, 102, 40, 41]  -- 'function f(){ (function(){ zzz })() }\nf()'
-    let sc : Scenario := { levels := [⟨.direct, .ident, "f", 39, [], 0⟩, ⟨.direct, .other, "", 16, [], 0⟩], pre := [], raise := .withAt 28 }
+    let sc : Scenario := { levels := [⟨.direct, .ident, "f", 39, [], 0, .nil⟩, ⟨.direct, .other, "", 16, [], 0, .nil⟩], pre := [], raise := .withAt 28 }
     Spec.traceDevs [⟨"", src⟩] sc = ["trace_unrecorded_callee"] ∧
     trace [⟨"", src⟩] 10 sc ≠ Spec.trace [⟨"", src⟩] 10 sc := by
   decide
@@ -418,7 +479,7 @@ example :
 /-- Dev `trace_implicit_call: a getter is entered without any call site being recorded in f`. -/
 example :
     let src : Src := [118, 97, 114, 32, 111, 32, 61, 32, 123, 103, 101, 116, 32, 120, 40, 41, 123, 32, 122, 122, 122, 59, 32, 125, 125, 59, 10, 102, 117, 110, 99, 116, 105, 111, 110, 32, 102, 40, 41, 123, 32, 111, 46, 120, 59, 32, 125, 10, 102, 40, 41, 59]  -- 'var o = {get x(){ zzz; }};\nfunction f(){ o.x; }\nf();'
-    let sc : Scenario := { levels := [⟨.direct, .ident, "f", 49, [], 0⟩, ⟨.implicit, .other, "", 42, [], 0⟩], pre := [], raise := .withAt 19 }
+    let sc : Scenario := { levels := [⟨.direct, .ident, "f", 49, [], 0, .nil⟩, ⟨.implicit, .other, "", 42, [], 0, .nil⟩], pre := [], raise := .withAt 19 }
     Spec.traceDevs [⟨"", src⟩, ⟨"", [0x31]⟩] sc = ["trace_implicit_call"] ∧
     trace [⟨"", src⟩, ⟨"", [0x31]⟩] 10 sc ≠ Spec.trace [⟨"", src⟩, ⟨"", [0x31]⟩] 10 sc := by
   decide
@@ -426,7 +487,7 @@ example :
 /-- Dev `trace_eval_file: after a direct eval the positions in f are looked up in the eval source`. -/
 example :
     let src : Src := [102, 117, 110, 99, 116, 105, 111, 110, 32, 102, 40, 41, 123, 32, 101, 118, 97, 108, 40, 34, 49, 34, 41, 59, 10, 32, 122, 122, 122, 59, 32, 125, 10, 102, 40, 41, 59]  -- 'function f(){ eval("1");\n zzz; }\nf();'
-    let sc : Scenario := { levels := [⟨.direct, .ident, "f", 34, [], 0⟩], pre := [.directEval 15 1], raise := .withAt 27 }
+    let sc : Scenario := { levels := [⟨.direct, .ident, "f", 34, [], 0, .nil⟩], pre := [.directEval 15 1], raise := .withAt 27 }
     Spec.traceDevs [⟨"", src⟩, ⟨"", [0x31]⟩] sc = ["trace_eval_file"] ∧
     trace [⟨"", src⟩, ⟨"", [0x31]⟩] 10 sc ≠ Spec.trace [⟨"", src⟩, ⟨"", [0x31]⟩] 10 sc := by
   decide
@@ -434,7 +495,7 @@ example :
 /-- Dev `errpos_no_at: instanceof on a non-object reports no position`. -/
 example :
     let src : Src := [102, 117, 110, 99, 116, 105, 111, 110, 32, 102, 40, 41, 123, 10, 32, 32, 49, 32, 105, 110, 115, 116, 97, 110, 99, 101, 111, 102, 32, 50, 59, 32, 125, 10, 102, 40, 41, 59]  -- 'function f(){\n  1 instanceof 2; }\nf();'
-    let sc : Scenario := { levels := [⟨.direct, .ident, "f", 35, [], 0⟩], pre := [], raise := .bare 17 }
+    let sc : Scenario := { levels := [⟨.direct, .ident, "f", 35, [], 0, .nil⟩], pre := [], raise := .bare 17 }
     Spec.traceDevs [⟨"", src⟩, ⟨"", [0x31]⟩] sc = ["errpos_no_at"] ∧
     trace [⟨"", src⟩, ⟨"", [0x31]⟩] 10 sc ≠ Spec.trace [⟨"", src⟩, ⟨"", [0x31]⟩] 10 sc := by
   decide
